@@ -1064,6 +1064,8 @@ class Interp:
             return self.ctx.branch(p(excv.t), f"isinstance(exc,{name})")
         if isinstance(excv, Opaque):
             name = getattr(clsv, "name", "?")
+            if name == "Exception" and excv.attrs.get("base_exception_only"):
+                return False  # e.g. asyncio.CancelledError: a BaseException that is not an Exception
             if name in ("Exception", "BaseException"):
                 return True
             return self.world.isinstance(self, excv, clsv)
